@@ -46,7 +46,12 @@ def cases(tier, seed):
             spec["target"] = {"kind": "scripted", "c": spec["target"]["c"], "where": "in",
                               "search": pats[int(rng.integers(len(pats)))], "poll": pats[int(rng.integers(len(pats)))], "other": "F"}
         out.append({"spec": spec})
-    out += C.option_variation_slice("C13", tier, seed)
+    for c in C.option_variation_slice("C13", tier, seed):
+        # mesh rules show after many polls: longer runs, and a steep non-smooth cone so that the mesh is refined far down
+        c["spec"]["options"]["max_fun_evals"] = 170
+        if c["spec"]["target"].get("kind") == "quad":
+            c["spec"]["target"]["kind"] = "l1"
+        out.append(c)
     return out
 
 
